@@ -45,7 +45,7 @@ ASSUMPTIONS = [
 ]
 MUST_REACH = {"roundtrips": 800, "templates_covered": 481, "beautified_roundtrips": 300, "packed_fields_printed": 200,
               "multiline_strings": 30, "replacement_hits": 30, "safe_fuzz_texts": 300, "safe_fuzz_rejected_eval": 50,
-              "registered_payload_messages": 100, "same_bytes_two_contexts": 5}
+              "registered_payload_messages": 100, "same_bytes_two_contexts": 5, "damaged_registered_payloads": 5, "degenerate_registered_payloads": 5}
 
 _ser = UDPMessageSerializer()
 _es = Settings()
@@ -215,16 +215,65 @@ def registered_payload(rng, key, block_vals):
     if not ctxs:
         return None, {}
     label, block, tmpl = rng.choice(ctxs)
+    r = rng.random()
+    if r < 0.12:
+        # degenerate payloads: explicit "nothing" encodings (a zero count)
+        # built straight from the serializer's template (not through its serialize(), whose special cases are under test):
+        # the template's own encoding of an empty container
+        for empty in ({}, [], ()):
+            try:
+                w = se.BufferWriter(getattr(ser, "ENDIANNESS", "<"))
+                w.write(tmpl, empty)
+                cand = bytes(w.copy_buffer())
+                dec = ser.deserialize(block, cand)
+                if cand and isinstance(dec, (dict, list, tuple)) and len(dec) == 0:
+                    _STATE["degenerate_registered_payloads"] = _STATE.get("degenerate_registered_payloads", 0) + 1
+                    return cand, dict(block.vars)
+            except Exception:
+                continue
     for _ in range(6):
         try:
             v = gen_spec.Deriver(random.Random(rng.getrandbits(32)), size_budget=10).gen(tmpl)
             p = ser.serialize(block, v)
             if p is se.UNSERIALIZABLE:
                 return None, {}
-            return bytes(p), dict(block.vars)
+            p = bytes(p)
+            if r < 0.4:
+                # a string member that is not valid UTF-8 on the wire (latin-1 text, a cut multi-byte sequence): whatever the
+                # pretty-printer makes of it, the text has to bring back exactly these bytes
+                strs = [x for x in _strings_in(v) if len(x.encode("utf8")) >= 4]
+                if strs:
+                    raw = rng.choice(strs).encode("utf8")
+                    at = p.find(raw)
+                    if at >= 0 and p.count(raw) == 1:
+                        b = bytearray(p)
+                        b[at + rng.randrange(len(raw))] = rng.choice([0xFF, 0xE9, 0xC3])
+                        if bytes(b) != p:
+                            p = bytes(b)
+                            _STATE["damaged_registered_payloads"] = _STATE.get("damaged_registered_payloads", 0) + 1
+            return p, dict(block.vars)
         except Exception:
             continue
     return None, {}
+
+
+def _strings_in(v, depth=0):
+    import dataclasses
+    if depth > 6:
+        return
+    if isinstance(v, str):
+        yield v
+    elif isinstance(v, dict):
+        for x in v.values():
+            yield from _strings_in(x, depth + 1)
+    elif isinstance(v, (list, tuple)):
+        for x in v:
+            yield from _strings_in(x, depth + 1)
+    elif dataclasses.is_dataclass(v) and not isinstance(v, type):
+        for f in dataclasses.fields(v):
+            yield from _strings_in(getattr(v, f.name, None), depth + 1)
+    elif hasattr(v, "value") and hasattr(v, "tag"):
+        yield from _strings_in(v.value, depth + 1)
 
 
 def _same_bytes_other_context(rng, key, payload, siblings):
@@ -446,6 +495,8 @@ def run(ctx):
                     m.direction = msg.direction
                     check_roundtrip(ctx, tmpl, spec, m, beautify, table, {"spec": spec})
     ctx.count("same_bytes_two_contexts", _STATE.get("same_bytes_two_contexts", 0))
+    ctx.count("damaged_registered_payloads", _STATE.get("damaged_registered_payloads", 0))
+    ctx.count("degenerate_registered_payloads", _STATE.get("degenerate_registered_payloads", 0))
     safe_fuzz(ctx, rng)
 
 
